@@ -27,7 +27,8 @@ import torch
 
 SLICE_POLICIES = ("pos", "offset", "stride", "gaps", "reversed", "shuffled", "constant", "global")
 ENTRIES = ("predict", "recon", "evaluate", "validation_loop", "inference")
-HISTORIES = ("fresh", "after-other", "after-break", "interleaved", "second-pass", "after-error")
+HISTORIES = ("fresh", "after-other", "after-break", "interleaved", "second-pass", "after-error",
+             "reuse-break", "reuse-close", "reuse-throw")      # reuse-*: an abandoned pass over the SAME loader / sampler objects
 
 
 def fname(v: int, dirs: bool = False) -> str:
@@ -271,6 +272,40 @@ def other_dataset(case, seed_shift=17):
     return MarkerDataset(layout, data, [1.0] * len(data), recon=recon, text_description="other"), layout
 
 
+class _Boom(Exception):
+    pass
+
+
+def abandon_pass(eng, loader, how: str, after: int):
+    """Start reconstruct_volumes over `loader`, take `after` volumes, then abandon the pass (the loader and its
+    BatchVolumeSampler object live on and are used again): by `break`, by generator.close(), or by an exception
+    raised inside the model in the middle of the next volume."""
+    if how == "reuse-throw":
+        old, n = eng.forward_function, [0]
+
+        def failing(data):
+            n[0] += 1
+            if n[0] > after + 1:
+                raise _Boom("model failed")
+            return old(data)
+        eng.forward_function = failing
+        try:
+            for _ in eng.reconstruct_volumes(loader, add_target=True, crop=None):
+                pass
+        except _Boom:
+            pass
+        finally:
+            del eng.forward_function
+        return
+    gen = eng.reconstruct_volumes(loader, add_target=False, crop=None)
+    for k, _ in enumerate(gen):
+        if k + 1 >= after:
+            break
+    if how == "reuse-close":
+        gen.close()
+    del gen
+
+
 def run_entry(case, ds, rank, tmp: pathlib.Path):
     """Run the case's entry point of the REAL code on rank `rank`; returns [(filename, volume, target or None)]."""
     eng = engine()
@@ -335,6 +370,8 @@ def run_entry(case, ds, rank, tmp: pathlib.Path):
             raise RuntimeError("files written do not correspond to the volumes predicted")
         return res, None
     loader = build_loader(ds, world, rank, bs, workers)
+    if hist.startswith("reuse-"):
+        abandon_pass(eng, loader, hist, case.get("abandon_after", 1))
     if entry == "recon":
         add_target = case.get("add_target", True)
         if hist == "second-pass":
@@ -541,6 +578,8 @@ def random_case(rng: random.Random, focus: str | None = None):
     world = 1 if entry == "validation_loop" else rng.randint(1, 4)
     bs = rng.choice([1, 2, 3, 4, 5, 6, 7, 8, 16])
     hist = "fresh" if rng.random() < 0.55 else rng.choice(HISTORIES[1:])
+    if hist.startswith("reuse-") and entry not in ("recon", "evaluate"):
+        entry, world = rng.choice(("recon", "evaluate")), rng.randint(1, 2)
     if hist == "interleaved" and entry != "recon":
         hist = "after-break"
     if hist == "interleaved" and entry == "inference":
@@ -551,6 +590,11 @@ def random_case(rng: random.Random, focus: str | None = None):
             "cplx": rng.random() < 0.3, "crop": crop, "recon": None, "world": world, "bs": bs, "workers": 0, "entry": entry,
             "add_target": rng.random() < 0.5, "losses": rng.random() < 0.4, "history": hist, "vl_order": rng.randrange(2),
             "out_layout": rng.choice(("plain", "plain", "noncontig", "f64", "batch-view")), "seed": rng.randrange(2 ** 30)}
+    case["abandon_after"] = rng.randint(1, 2)
+    if hist.startswith("reuse-"):
+        case["bs"] = bs = rng.randint(2, 4)          # the history matters when early volumes are not multiples of bs
+        if ds == "marker" and all(n % bs == 0 for n in layout[:2]):
+            layout[0] = bs + 1
     case["num_images"] = rng.choice([1, 2, 3, 8])
     case["dirs"] = ds == "marker" and entry in ("predict", "recon") and rng.random() < 0.3     # colliding basenames
     if crop == "header" or rng.random() < 0.2:
